@@ -13,9 +13,9 @@ def kindOf : Char → Option Kind
   | 'A' => some .as
   | _ => none
 
-def mkCfg (kinds : String) (sbo : Bool) : Cfg :=
+def mkCfg (kinds : String) (sbo pinned : Bool) : Cfg :=
   let ks := kinds.toList.filterMap kindOf
-  { n := ks.length, kind := fun i => ks.getD i .fn, sbo := sbo }
+  { n := ks.length, kind := fun i => ks.getD i .fn, sbo := sbo, pinned := pinned }
 
 def showRes : Res → String
   | .ok => "ok"
@@ -36,6 +36,7 @@ def showEv : LEv → String
   | .D i => s!"D{i}"
   | .X i => s!"X{i}"
   | .L i => s!"L{i}"
+  | .F i => s!"F{i}"
 
 def showOut (r : Res) (evs : List LEv) : String :=
   showRes r ++ " |" ++ String.join (evs.map (fun e => " " ++ showEv e))
@@ -60,6 +61,7 @@ def parseOp (name : String) (a : List Int) : Option Op :=
   | "call", 2 => some (.call (n 0) (z 1))
   | "run", 1 => some (.run (n 0))
   | "runc", 1 => some (.runc (n 0))
+  | "arm", 1 => some (.arm (n 0))
   | _, _ => none
 
 /-- `o <name> <args…> => <result> |<events>` → (op, observed output text, observed result
@@ -116,10 +118,12 @@ def ledStep (m : Led) (t : String) : Led :=
       else { m with viol := s!"object {id} destroyed although not alive (destroyed twice or never constructed)" :: m.viol }
     else if k == "X" || k == "L" then
       if m.alive.contains id then m else { m with viol := s!"connect on object {id} which is not alive" :: m.viol }
+    else if k == "F" then
+      if m.alive.contains id then m else { m with viol := s!"construction from object {id} which is not alive" :: m.viol }
     else { m with viol := s!"payload reported misuse: {t}" :: m.viol }
 
 def runCase (c : Case) : String :=
-  let cfg := mkCfg (c.get "kinds" "FQUA") (c.get "sbo" "0" == "1")
+  let cfg := mkCfg (c.get "kinds" "FQUA") (c.get "sbo" "0" == "1") (c.get "pinned" "0" == "1")
   let parsed := c.lines.map parseLine
   match parsed.findIdx? Option.isNone with
   | some i => s!"case {c.id} reject {i} [unparsed: {c.lines.getD i ""}] ; monitors ok"
@@ -127,15 +131,15 @@ def runCase (c : Case) : String :=
   let items := parsed.filterMap id
   -- monitors: ledger fold and the value-semantics reference
   let led := items.foldl (fun m it => it.2.2.2.foldl ledStep m) ({} : Led)
-  let (specV, aFinal) := items.foldl (fun (acc : List String × (Nat → ASlot)) it =>
+  let (specV, aFinal) := items.foldl (fun (acc : List String × ASt) it =>
       let (op, _, r, _) := it
       let sr := specExec cfg acc.2 op
       let want := showRes sr.2
       -- the address-stability flag of `ret` is not part of the reference result
       let got := if r.startsWith "ret " then (r.dropEnd 1).toString ++ "0" else r
       (if got == want then acc.1 else s!"{reprStr op}: wrapper gave '{r}' but the wrapped object itself gives '{want}'" :: acc.1, sr.1))
-    ([], fun _ => ASlot.dead)
-  let allDead := (List.range cfg.n).all (fun i => aFinal i == ASlot.dead)
+    ([], ASt.init)
+  let allDead := (List.range cfg.n).all (fun i => aFinal.slots i == ASlot.dead)
   let endV := if c.status == "ok" && allDead && !led.alive.isEmpty then
       [s!"all wrappers destroyed but objects {led.alive.reverse} were never destroyed"] else []
   let stV := if c.status == "ok" then [] else [s!"run ended with status '{c.status}'"]
